@@ -144,3 +144,51 @@ def check(ctx):
         ctx.after_ok("5.relayed-executed-after-import", g, [pr])
         ctx.arg_origin("5.executes-the-imported-txs", pr, 1, f"call:{EX}::get_relayed_txs")
         ctx.arg_origin("5.da-height-from-header", g, 2, "field:fuel_core_types::blockchain::header::ApplicationHeader.da_height", depth=1)
+
+    # -- 6. nothing collected is lost, nothing is reordered --
+    with ctx.clause("6.accumulation-and-order"):
+        b = ctx.body_with(f"{EX}::process_da", "fuel_core_executor::ports::RelayerPort::get_events")
+        NEXT = "core::iter::traits::iterator::Iterator::next"
+        ev = [c for c in b.calls_to(NEXT) if atom_match(Origins(b, 0).atoms(c.args[0]), "call:fuel_core_executor::ports::RelayerPort::get_events")]
+        outer = [c for c in b.calls_to(NEXT) if c.bb in b.live and c not in ev and ev and b.path([c.target], [ev[0].bb]) is not None and b.path([ev[0].target], [c.bb]) is not None]
+        ctx.expect_sites("6.height-loop", outer, exactly=1, what="loop over the DA heights of the range")
+        vf = ctx.one_call(b, f"{EX}::validate_forced_tx")
+        okp = [c for c in b.calls_to("alloc::vec::Vec::push") if atom_match(Origins(b, 1).atoms(c.args[1]), f"call:{EX}::validate_forced_tx")]
+        ret = ctx.returned_locals(b)
+        # the vector the valid transactions are pushed into is the one that is returned ...
+        recv = set()
+        for c in okp:
+            recv |= set(ctx._referents(b, c.args[0]))
+        ctx.add("6.collected-into-the-returned-list", "PROV", bool(recv) and recv <= ret, "valid forced transactions are pushed into the list that process_da returns",
+                sites=[c.where() for c in okp], site_key="recv")
+        # ... and that list is never re-assigned inside the height loop (it accumulates over the whole DA range)
+        over = []
+        if outer:
+            h = outer[0]
+            on_cycle = lambda bb: b.path([h.target], [bb]) is not None and b.path([bb], [h.bb]) is not None
+            named = {l for l in ret if l != 0 and b.local_name(l)}
+            for l in named:
+                for d in b.defs.get(l, []):
+                    dbb = d[1] if d[0] == "assign" else d[1].bb
+                    whole = d[0] == "call" or not d[3].get("p")
+                    if whole and dbb in b.live and on_cycle(dbb) and not (d[0] == "assign" and d[4].get("k") == "ref"):
+                        over.append(f"{b.local_name(l)} reassigned at line {(d[4] if d[0] == 'assign' else {}).get('line') or b.blocks[dbb]['t'].get('line')}")
+        ctx.add("6.collected-list-accumulates-over-the-range", "PAIR", not over,
+                "the returned list of forced transactions is not overwritten per DA height" + (f": {sorted(set(over))} — the transactions of every height but the last are hashed into the inbox root but never executed nor reported" if over else ""),
+                sites=[c.where() for c in okp], site_key="acc")
+        REORDER = ("sort", "sort_by", "sort_by_key", "sort_unstable", "sort_unstable_by", "sort_unstable_by_key", "sort_by_cached_key", "reverse", "rev", "retain", "dedup", "dedup_by",
+                   "dedup_by_key", "swap", "rotate_left", "rotate_right", "shuffle", "drain", "truncate", "swap_remove", "select_nth_unstable")
+        ro = [c for x in F.unit(f"{EX}::process_da").bodies for c in x.calls if c.bb in x.live and c.name in REORDER]
+        ctx.expect_sites("6.process_da-keeps-relayer-order", ro, exactly=0, what="reordering / filtering of the events in process_da (the inbox root is defined over the relayer's order)")
+        ctx.arg_origin("6.events-iterated-as-returned-by-the-port", ev[0], 0, "call:fuel_core_executor::ports::RelayerPort::get_events", depth=0) if ev else None
+        # the node's RelayerPort adapter hands the stored events on unchanged
+        aus = F.find_units("<* as fuel_core_executor::ports::RelayerPort>::get_events", "fuel_core")
+        ctx.expect_sites("6.adapter-impls", [u.q for u in aus], at_least=1, what="RelayerPort::get_events implementations in fuel_core")
+        for u in aus:
+            bad = [c for x in u.bodies for c in x.calls if c.bb in x.live and c.name in REORDER + ("push", "insert", "remove", "pop", "extend", "append", "filter", "skip", "take", "step_by")]
+            ctx.add(f"6.adapter-returns-stored-events-unchanged", "PROV", not bad, f"{u.q.split(' as ')[0].lstrip('<').split('::')[-1]}::get_events returns the EventsHistory entry as stored" +
+                    (f"; but calls {[c.name + ' (' + c.where() + ')' for c in bad]} on it: the order / set of events seen by the executor differs from the relayer's" if bad else ""),
+                    sites=[c.where() for c in bad] or [u.root.file], site_key=u.root.impl_self or u.q)
+            gets = [c for x in u.bodies for c in x.calls if c.bb in x.live and c.name == "get" and c.path.startswith("fuel_storage::")]
+            ctx.add("6.adapter-reads-events-history", "PROV", len(gets) == 1 and any("EventsHistory" in t for t in gets[0].targs + [str(gets[0].self_ty)]),
+                    "the events come from EventsHistory at the requested height", sites=[c.where() for c in gets], site_key=(u.root.impl_self or u.q) + ":get")
